@@ -90,6 +90,29 @@ def check_structure(G, scfg, report):
     for comp in sccs_ref(G):
         if not any(comp <= ls for ls in leafsets.values()):
             report("loop/cycle-not-in-loop-region", f"input cycle {sorted(comp)} is not contained in any loop region")
+    # (c') "each with exactly one continuation": judged where control really goes - the forward targets by which the blocks INSIDE a
+    # branch arm leave it - not only by what the arm's region block declares
+    for n, r in regions.items():
+        if r.kind != "branch":
+            continue
+        inside, stack = set(), [r]
+        while stack:
+            x = stack.pop()
+            if x.subregion is None:
+                continue
+            for k, bk in x.subregion.graph.items():
+                inside.add(k)
+                if isinstance(bk, RegionBlock):
+                    stack.append(bk)
+        outs = set()
+        for leaf in hier.leaves_of(r):
+            b = hier.flat[leaf].block
+            for t in b.jump_targets:
+                if t not in inside and t != n:
+                    outs.add(t)
+        if len(outs) > 1 or (outs and set(outs) != set(r.jump_targets)):
+            report("branch/arm-leaves-elsewhere", f"blocks inside branch region {n!r} leave it towards {sorted(outs)}; the region declares "
+                                                  f"the continuation {tuple(r.jump_targets)!r}")
     # (c) branch structure per level
     for level, region, depth in hier.levels:
         for k, b in level.graph.items():
